@@ -252,6 +252,11 @@ func calleeName(cc *ssa.CallCommon) string {
 // syncInfo classifies the instruction a thread state is about to execute.
 func (ex *Exec) syncInfo(st *State, instr ssa.Instruction) *syncInfo {
 	tb := ex.tb
+	if fn := st.top().fi.fn; fn != nil && fn.Pkg != nil && fn.Pkg.Pkg.Path() == "sync" {
+		// code of package sync executed from its source (sync.Once): its internal lock and
+		// flag are not scheduling points of their own; the call of Once.Do is (see below)
+		return nil
+	}
 	switch in := instr.(type) {
 	case *ssa.Send:
 		p := ex.restrictVal(ex.get(st, in.Chan).(*Ptr), st.ctx).(*Ptr)
@@ -396,6 +401,16 @@ func init() {
 		return ex.tb.Eq(peek(ex, st, p), ex.typedConst(t, 0))
 	}
 	always := func(ex *Exec, st *State, fn *ssa.Function, args []Value) *Term { return ex.tb.True }
+	// the counter updates of a WaitGroup are synchronisation operations of their own: other
+	// goroutines may run between a channel receive and the Add that follows it
+	// Once.Do: proceeds when the once is done already or nobody is inside it
+	se["(*sync.Once).Do"] = func(ex *Exec, st *State, fn *ssa.Function, args []Value) *Term {
+		dp, dt := ex.fieldPtr(args[0].(*Ptr), recvElem(fn), "done", "v")
+		mp, mt := ex.fieldPtr(args[0].(*Ptr), recvElem(fn), "m", "state")
+		return ex.tb.Or(ex.tb.Not(ex.tb.Eq(peek(ex, st, dp), ex.typedConst(dt, 0))), ex.tb.Eq(peek(ex, st, mp), ex.typedConst(mt, 0)))
+	}
+	se["(*sync.WaitGroup).Add"] = always
+	se["(*sync.WaitGroup).Done"] = always
 	for _, tn := range []string{"Int32", "Uint32", "Int64", "Uint64", "Bool", "Uintptr"} {
 		for _, m := range []string{"Load", "Store", "Add", "CompareAndSwap"} {
 			se["(*sync/atomic."+tn+")."+m] = always
@@ -753,6 +768,67 @@ func (ex *Exec) mergeEntries(g *Term, a, b []MapEntry) []MapEntry {
 		e.G = ex.tb.And(ng, e.G)
 		out = append(out, e)
 	}
+	return ex.compactEntries(out)
+}
+
+// compactEntries folds the update history of a map into at most one insertion and one
+// deletion per key. Only done when all keys are pairwise identical or provably different
+// (then updates of different keys commute).
+func (ex *Exec) compactEntries(es []MapEntry) []MapEntry {
+	if len(es) < 4 {
+		return es
+	}
+	tb := ex.tb
+	var keys []Value
+	idx := make([]int, len(es))
+	for i, e := range es {
+		found := -1
+		for k, kv := range keys {
+			if sameVal(kv, e.Key) || ex.keyEq(kv, e.Key).IsTrue() {
+				found = k
+				break
+			}
+			if !ex.keyEq(kv, e.Key).IsFalse() {
+				return es // two keys that may or may not be equal: order matters
+			}
+		}
+		if found < 0 {
+			keys = append(keys, e.Key)
+			found = len(keys) - 1
+		}
+		idx[i] = found
+	}
+	if len(keys) == len(es) {
+		return es
+	}
+	out := make([]MapEntry, 0, 2*len(keys))
+	for k, kv := range keys {
+		present, deleted := tb.False, tb.False
+		var val Value
+		for i, e := range es {
+			if idx[i] != k {
+				continue
+			}
+			if e.Del {
+				deleted = tb.Or(deleted, e.G)
+				present = tb.And(present, tb.Not(e.G))
+			} else {
+				if val == nil {
+					val = e.Val
+				} else {
+					val = ex.merge(e.G, e.Val, val)
+				}
+				present = tb.Or(present, e.G)
+				deleted = tb.And(deleted, tb.Not(e.G))
+			}
+		}
+		if !deleted.IsFalse() {
+			out = append(out, MapEntry{G: deleted, Key: kv, Del: true})
+		}
+		if !present.IsFalse() && val != nil {
+			out = append(out, MapEntry{G: present, Key: kv, Val: val})
+		}
+	}
 	return out
 }
 
@@ -911,6 +987,9 @@ func (ex *Exec) Quiesce(maxSteps int) (*Term, []*World) {
 			// the schedule's choice in this world
 			cname := fmt.Sprintf("ch!%s", shortHash(ex.worldKey(w)+fmt.Sprint(depth)))
 			sc.ChoiceNames = append(sc.ChoiceNames, cname)
+			if os.Getenv("VERIF_WK") != "" && depth <= 2 {
+				fmt.Printf("[wk] fixed=%v depth=%d %s key=%s\n", ex.Fixed != nil, depth, cname, ex.worldKey(w))
+			}
 			choice := ex.freshInt(cname, big0, bigInt(255))
 			nCand := 0
 			for _, c := range cands {
@@ -926,6 +1005,9 @@ func (ex *Exec) Quiesce(maxSteps int) (*Term, []*World) {
 							forced = c.key
 						}
 					}
+				}
+				if os.Getenv("VERIF_DEBUG") != "" {
+					fmt.Printf("[concrete] depth %d choice %s const=%v val=%s forced=%q ncand=%d\n", depth, cname, choice.IsConst(), tb.Show(choice), forced, nCand)
 				}
 				if forced == "" {
 					// the model leaves this choice open (any order leads to the violation): take
